@@ -123,8 +123,16 @@ func (c StoreCfg) cacheConfig(name string, st cache.StatsTracker, needed *bool) 
 			cc.HeapInUseSoftLimit = 1
 		}
 	} else {
-		// limits that are configured but never reached must never trigger
-		cc.HeapInUseSoftLimit, cc.SysMemSoftLimit = 1<<62, 1<<62
+		// limits that are configured but never reached must never trigger - both, only one of them, or none configured
+		switch c.ForceKind {
+		case "heap":
+			cc.HeapInUseSoftLimit = 1 << 62
+		case "sys":
+			cc.SysMemSoftLimit = 1 << 62
+		case "none":
+		default:
+			cc.HeapInUseSoftLimit, cc.SysMemSoftLimit = 1<<62, 1<<62
+		}
 	}
 
 	if c.Logger {
